@@ -12,6 +12,8 @@ A_RUSTC = 'A6: rustc compiles the source to the semantics Verus and Kani assume'
 A_COUNT = 'A3a: assume_specification u8::count_ones(x) == sum of the 8 bits (discharged by Kani on the real core library: harness count_ones_is_bit_sum, all 256 inputs)'
 A_FROMBOOL = 'A3d: assume_specification <u16|u8 as From<bool>>::from(b) == b as u16|u8 (spellings a refactoring may use; discharged by Kani: harness int_from_bool_is_cast, both inputs)'
 A_CHAR = 'A3b: assume_specification <char as From<u8>>::from(x) == x as char (discharged by Kani: harness char_from_u8_is_cast, all 256 inputs)'
+A_CHAR32 = ('A3e: assume_specification char::from_u32(x) == Some(x as char) iff x is a Unicode scalar value, else None (a spelling only added code uses; '
+            'discharged by Kani: harness char_from_u32_is_checked_cast, all 2^32 inputs)')
 A_PRED = ('A3c: the five Modifiers predicates are external_body in Verus (bool `|`,`&`,`^` are outside its dialect); their derived copies are '
           'proved equal to the compiled predicates by Kani for all 512 Modifiers values (harness predicates_equal_copies)')
 A_KANI = 'A8: Kani 0.68 / CBMC 6.11 / its SAT back end are sound for the loop-free full-domain harnesses used to discharge A3a-d and A4'
@@ -22,43 +24,43 @@ A_REF_LAY = 'A7c: the layout reference tables spec/layouts/*.json are faithful t
 BASE = [A_VERUS, A_EXTRACT, A_STRUCT, A_RUSTC]
 
 PROPS = {
-    'C01': {'denotations': 'set2', 'lemmas': ['c01'], 'support_lemmas': ['c07'], 'cellgens': ['scancode_ref'], 'assume': BASE + [A_PRIV, A_REF_SC, A_KANI], 'kani': ['derived_eq_is_structural'], 'design': 'DESIGN.md section 3, C01',
+    'C01': {'denotations': 'set2', 'lemmas': ['c01'], 'support_lemmas': ['c07'], 'cellgens': ['scancode_ref'], 'assume': BASE + [A_PRIV, A_REF_SC, A_KANI, A_CHAR32], 'kani': ['derived_eq_is_structural', 'char_from_u32_is_checked_cast'], 'design': 'DESIGN.md section 3, C01',
             'technique': 'Verus: derived table denotations == reference table cell by cell (3x256) + automaton postcondition on the real ScancodeSet2::advance_state + sequence lemmas + verified clients'},
-    'C02': {'denotations': 'set1', 'lemmas': ['c02'], 'support_lemmas': ['c07'], 'cellgens': ['scancode_ref'], 'assume': BASE + [A_PRIV, A_REF_SC], 'kani': [], 'design': 'DESIGN.md section 3, C02',
+    'C02': {'denotations': 'set1', 'lemmas': ['c02'], 'support_lemmas': ['c07'], 'cellgens': ['scancode_ref'], 'assume': BASE + [A_PRIV, A_REF_SC, A_CHAR32, A_KANI], 'kani': ['char_from_u32_is_checked_cast'], 'design': 'DESIGN.md section 3, C02',
             'technique': 'Verus: derived table denotations == reference table cell by cell (3x256) + automaton postcondition and invariant on the real ScancodeSet1::advance_state + sequence lemmas + verified clients'},
-    'C03': {'needs_invariants': False, 'denotations': 'layouts', 'lemmas': [], 'support_lemmas': ['ldefs'], 'cellgens': ['c03_cells'], 'assume': BASE + [A_CHAR, A_PRED, A_KANI, A_REF_LAY], 'kani': ['char_from_u8_is_cast', 'predicates_equal_copies', 'derived_eq_is_structural'], 'design': 'DESIGN.md section 3, C03',
+    'C03': {'needs_invariants': False, 'denotations': 'layouts', 'lemmas': [], 'support_lemmas': ['ldefs'], 'cellgens': ['c03_cells'], 'assume': BASE + [A_CHAR, A_PRED, A_KANI, A_REF_LAY, A_CHAR32], 'kani': ['char_from_u8_is_cast', 'predicates_equal_copies', 'derived_eq_is_structural', 'char_from_u32_is_checked_cast'], 'design': 'DESIGN.md section 3, C03',
             'technique': 'Verus lemmas per (layout, key, level) against reference tables of the national layouts, for every modifier state and mode selecting the level, over the derived layout denotations'},
-    'C04': {'kani_scenarios': ['events_mods'], 'lemmas': ['c04'], 'assume': BASE + [A_PRIV], 'kani': [], 'design': 'DESIGN.md section 3, C04',
+    'C04': {'kani_scenarios': ['events_mods'], 'lemmas': ['c04'], 'assume': BASE + [A_PRIV, A_CHAR32, A_KANI], 'kani': ['char_from_u32_is_checked_cast'], 'design': 'DESIGN.md section 3, C04',
             'technique': 'Verus postcondition mods\' == mods_step(mods, ev) on the real process_keyevent + induction lemma over Seq<KeyEvent> + verified clients'},
-    'C05': {'kani_scenarios': ['word'], 'lemmas': ['c05'], 'assume': BASE + [A_COUNT, A_KANI], 'kani': ['count_ones_is_bit_sum'], 'design': 'DESIGN.md section 3, C05',
+    'C05': {'kani_scenarios': ['word'], 'lemmas': ['c05'], 'assume': BASE + [A_COUNT, A_KANI, A_CHAR32], 'kani': ['count_ones_is_bit_sum', 'char_from_u32_is_checked_cast'], 'design': 'DESIGN.md section 3, C05',
             'technique': 'Verus postcondition r == frame_ref(word) on the real check_word/add_word + bit-vector lemmas (round trip, single-bit corruption); Kani discharges the count_ones assumption'},
-    'C06': {'support_fns': r'^Ps2Decoder::(check_word|get_bit|has_even_number_bits)$', 'kani_scenarios': ['bits'], 'lemmas': ['c06'], 'assume': BASE + [A_PRIV, A_COUNT, A_FROMBOOL, A_KANI], 'kani': ['count_ones_is_bit_sum', 'int_from_bool_is_cast'], 'design': 'DESIGN.md section 3, C06',
+    'C06': {'support_fns': r'^Ps2Decoder::(check_word|get_bit|has_even_number_bits)$', 'kani_scenarios': ['bits'], 'lemmas': ['c06'], 'assume': BASE + [A_PRIV, A_COUNT, A_FROMBOOL, A_KANI, A_CHAR32], 'kani': ['count_ones_is_bit_sum', 'int_from_bool_is_cast', 'char_from_u32_is_checked_cast'], 'design': 'DESIGN.md section 3, C06',
             'technique': 'Verus invariant wf + step postcondition ps2_step on the real add_bit/clear/new + induction over frames and streams of frames + verified clients'},
-    'C07': {'lemmas': ['c07'], 'assume': BASE + [A_PRIV, A_KANI], 'kani': ['derived_eq_is_structural'], 'design': 'DESIGN.md section 3, C07',
+    'C07': {'lemmas': ['c07'], 'assume': BASE + [A_PRIV, A_KANI, A_CHAR32], 'kani': ['derived_eq_is_structural', 'char_from_u32_is_checked_cast'], 'design': 'DESIGN.md section 3, C07',
             'technique': 'Verus automaton postconditions on both real advance_state functions + rank/resync lemmas over Seq<u8> by induction'},
-    'C08': {'kani_scenarios': ['word', 'bits', 'events'], 'denotations': 'all', 'lemmas': [], 'assume': BASE + [A_PRIV, A_COUNT, A_FROMBOOL, A_CHAR, A_PRED, A_KANI], 'kani': ['count_ones_is_bit_sum', 'int_from_bool_is_cast', 'char_from_u8_is_cast', 'predicates_equal_copies', 'derived_eq_is_structural'],
+    'C08': {'kani_scenarios': ['word', 'bits', 'events'], 'denotations': 'all', 'lemmas': [], 'assume': BASE + [A_PRIV, A_COUNT, A_FROMBOOL, A_CHAR, A_PRED, A_KANI, A_CHAR32], 'kani': ['count_ones_is_bit_sum', 'int_from_bool_is_cast', 'char_from_u8_is_cast', 'predicates_equal_copies', 'derived_eq_is_structural', 'char_from_u32_is_checked_cast'],
             'design': 'DESIGN.md section 3, C08',
             'technique': 'Verus built-in overflow / shift-range / panic-unreachable obligations on every exec function under the representation invariants'},
-    'C09': {'needs_invariants': False, 'denotations': 'layouts', 'lemmas': [], 'support_lemmas': ['ldefs'], 'cellgens': ['layout_cells'], 'assume': BASE + [A_CHAR, A_PRED, A_KANI], 'kani': ['char_from_u8_is_cast', 'predicates_equal_copies', 'derived_eq_is_structural'], 'design': 'DESIGN.md section 3, C09',
+    'C09': {'needs_invariants': False, 'denotations': 'layouts', 'lemmas': [], 'support_lemmas': ['ldefs'], 'cellgens': ['layout_cells'], 'assume': BASE + [A_CHAR, A_PRED, A_KANI, A_CHAR32], 'kani': ['char_from_u8_is_cast', 'predicates_equal_copies', 'derived_eq_is_structural', 'char_from_u32_is_checked_cast'], 'design': 'DESIGN.md section 3, C09',
             'technique': 'Verus relational lemmas per (layout, key) over the layout denotations derived from the real map_keycode bodies (proved equal to them); Kani discharges the predicate / char::from assumptions'},
-    'C10': {'needs_invariants': False, 'denotations': 'layouts', 'lemmas': [], 'support_lemmas': ['ldefs'], 'cellgens': ['layout_cells'], 'assume': BASE + [A_CHAR, A_PRED, A_KANI], 'kani': ['char_from_u8_is_cast', 'predicates_equal_copies', 'derived_eq_is_structural'], 'design': 'DESIGN.md section 3, C10',
+    'C10': {'needs_invariants': False, 'denotations': 'layouts', 'lemmas': [], 'support_lemmas': ['ldefs'], 'cellgens': ['layout_cells'], 'assume': BASE + [A_CHAR, A_PRED, A_KANI, A_CHAR32], 'kani': ['char_from_u8_is_cast', 'predicates_equal_copies', 'derived_eq_is_structural', 'char_from_u32_is_checked_cast'], 'design': 'DESIGN.md section 3, C10',
             'technique': 'Verus relational lemmas per (layout, key): CapsLock twin states, over the derived layout denotations; Kani discharges the predicate / char::from assumptions'},
-    'C11': {'needs_invariants': False, 'denotations': 'layouts', 'lemmas': ['c11'], 'support_lemmas': ['ldefs'], 'cellgens': ['layout_cells'], 'assume': BASE + [A_CHAR, A_PRED, A_KANI], 'kani': ['char_from_u8_is_cast', 'predicates_equal_copies', 'derived_eq_is_structural'], 'design': 'DESIGN.md section 3, C11',
+    'C11': {'needs_invariants': False, 'denotations': 'layouts', 'lemmas': ['c11'], 'support_lemmas': ['ldefs'], 'cellgens': ['layout_cells'], 'assume': BASE + [A_CHAR, A_PRED, A_KANI, A_CHAR32], 'kani': ['char_from_u8_is_cast', 'predicates_equal_copies', 'derived_eq_is_structural', 'char_from_u32_is_checked_cast'], 'design': 'DESIGN.md section 3, C11',
             'technique': 'Verus relational lemmas per (layout, key): equal five facts imply equal output, over the derived layout denotations; predicate groupings proved on the derived copies and equated with the compiled predicates by Kani'},
-    'C12': {'needs_invariants': False, 'denotations': 'layouts', 'lemmas': [], 'support_lemmas': ['ldefs'], 'cellgens': ['layout_cells'], 'assume': BASE + [A_CHAR, A_PRED, A_KANI], 'kani': ['char_from_u8_is_cast', 'predicates_equal_copies', 'derived_eq_is_structural'], 'design': 'DESIGN.md section 3, C12',
+    'C12': {'needs_invariants': False, 'denotations': 'layouts', 'lemmas': [], 'support_lemmas': ['ldefs'], 'cellgens': ['layout_cells'], 'assume': BASE + [A_CHAR, A_PRED, A_KANI, A_CHAR32], 'kani': ['char_from_u8_is_cast', 'predicates_equal_copies', 'derived_eq_is_structural', 'char_from_u32_is_checked_cast'], 'design': 'DESIGN.md section 3, C12',
             'technique': 'Verus existential lemmas per (layout, character) with witnesses hinted by the real code and checked by Verus over the derived layout denotations'},
-    'C15': {'needs_invariants': False, 'denotations': 'layouts', 'lemmas': [], 'support_lemmas': ['ldefs'], 'cellgens': ['layout_cells'], 'assume': BASE + [A_CHAR, A_PRED, A_KANI], 'kani': ['char_from_u8_is_cast', 'predicates_equal_copies', 'derived_eq_is_structural'], 'design': 'DESIGN.md section 3, C15',
+    'C15': {'needs_invariants': False, 'denotations': 'layouts', 'lemmas': [], 'support_lemmas': ['ldefs'], 'cellgens': ['layout_cells'], 'assume': BASE + [A_CHAR, A_PRED, A_KANI, A_CHAR32], 'kani': ['char_from_u8_is_cast', 'predicates_equal_copies', 'derived_eq_is_structural', 'char_from_u32_is_checked_cast'], 'design': 'DESIGN.md section 3, C15',
             'technique': 'Verus lemmas per (layout, numpad/editing key) for all modifier states and modes over the derived layout denotations'},
-    'C16': {'needs_invariants': False, 'denotations': 'layouts', 'lemmas': [], 'support_lemmas': ['ldefs'], 'cellgens': ['layout_cells'], 'assume': BASE + [A_CHAR, A_PRED, A_KANI], 'kani': ['char_from_u8_is_cast', 'predicates_equal_copies', 'derived_eq_is_structural'], 'design': 'DESIGN.md section 3, C16',
+    'C16': {'needs_invariants': False, 'denotations': 'layouts', 'lemmas': [], 'support_lemmas': ['ldefs'], 'cellgens': ['layout_cells'], 'assume': BASE + [A_CHAR, A_PRED, A_KANI, A_CHAR32], 'kani': ['char_from_u8_is_cast', 'predicates_equal_copies', 'derived_eq_is_structural', 'char_from_u32_is_checked_cast'], 'design': 'DESIGN.md section 3, C16',
             'technique': 'Verus lemmas per (layout, key): 52 character-less keys raw in every state; raw results are the key itself or its NumLock-off alias, over the derived layout denotations'},
-    'C13': {'denotations': 'tables', 'lemmas': ['c13'], 'cellgens': ['xlat_cells'], 'assume': BASE + [A_PRIV, A_REF_XL, A_KANI], 'kani': ['derived_eq_is_structural'], 'design': 'DESIGN.md section 3, C13',
+    'C13': {'denotations': 'tables', 'lemmas': ['c13'], 'cellgens': ['xlat_cells'], 'assume': BASE + [A_PRIV, A_REF_XL, A_KANI, A_CHAR32], 'kani': ['derived_eq_is_structural', 'char_from_u32_is_checked_cast'], 'design': 'DESIGN.md section 3, C13',
             'technique': 'Verus lemmas relating the derived denotations of the six real tables through the i8042 translation table (forward, and backward via a verified inverse map) + event-level lemma over the two automaton contracts + verified client'},
-    'C14': {'kani_scenarios': ['events_decode'], 'lemmas': ['c14'], 'assume': BASE + [A_PRIV], 'kani': [], 'design': 'DESIGN.md section 3, C14',
+    'C14': {'kani_scenarios': ['events_decode'], 'lemmas': ['c14'], 'assume': BASE + [A_PRIV, A_CHAR32, A_KANI], 'kani': ['char_from_u32_is_checked_cast'], 'design': 'DESIGN.md section 3, C14',
             'technique': 'Verus postcondition r == decode_out(layout, mods, mode, ev) on the real process_keyevent, generic in the layout via a ghost trait member + verified clients for mode/layout changes'},
-    'C19': {'denotations': 'tables', 'lemmas': ['c19'], 'cellgens': ['injectivity'], 'assume': BASE + [A_PRIV, A_KANI], 'kani': ['derived_eq_is_structural'], 'design': 'DESIGN.md section 3, C19',
+    'C19': {'denotations': 'tables', 'lemmas': ['c19'], 'cellgens': ['injectivity'], 'assume': BASE + [A_PRIV, A_KANI, A_CHAR32], 'kani': ['derived_eq_is_structural', 'char_from_u32_is_checked_cast'], 'design': 'DESIGN.md section 3, C19',
             'technique': 'Verus: injectivity of the six derived table denotations via verified inverse maps (hint from the real code, checked by Verus); make/break pairing lemmas over the automaton contracts + verified clients'},
-    'C17': {'support_fns': r'^EventDecoder::process_keyevent', 'needs_invariants': False, 'denotations': 'wrappers', 'lemmas': ['c17'], 'cellgens': ['anylayout_cells'], 'assume': BASE + [A_CHAR, A_PRED, A_KANI], 'kani': ['char_from_u8_is_cast', 'predicates_equal_copies', 'derived_eq_is_structural'], 'design': 'DESIGN.md section 3, C17',
+    'C17': {'support_fns': r'^EventDecoder::process_keyevent', 'needs_invariants': False, 'denotations': 'wrappers', 'lemmas': ['c17'], 'cellgens': ['anylayout_cells'], 'assume': BASE + [A_CHAR, A_PRED, A_KANI, A_CHAR32], 'kani': ['char_from_u8_is_cast', 'predicates_equal_copies', 'derived_eq_is_structural', 'char_from_u32_is_checked_cast'], 'design': 'DESIGN.md section 3, C17',
             'technique': 'Verus lemmas per variant and wrapper form over the denotations of the two real AnyLayout::map_keycode impls (derived from their bodies, proved equal to them) + verified client'},
-    'C18': {'support_fns': r'^(EventDecoder|Ps2Decoder|ScancodeSet1|ScancodeSet2|trait ScancodeSet|Default for )', 'lemmas': ['c18'], 'assume': BASE + [A_PRIV, A_COUNT, A_FROMBOOL, A_KANI], 'kani': ['count_ones_is_bit_sum', 'int_from_bool_is_cast'], 'design': 'DESIGN.md section 3, C18',
+    'C18': {'support_fns': r'^(EventDecoder|Ps2Decoder|ScancodeSet1|ScancodeSet2|trait ScancodeSet|Default for )', 'lemmas': ['c18'], 'assume': BASE + [A_PRIV, A_COUNT, A_FROMBOOL, A_KANI, A_CHAR32], 'kani': ['count_ones_is_bit_sum', 'int_from_bool_is_cast', 'char_from_u32_is_checked_cast'], 'design': 'DESIGN.md section 3, C18',
             'technique': 'Verus frame postconditions on all nine Keyboard methods (generic in S, L) + verified simulation clients: Keyboard vs three separate stages'},
 }
